@@ -318,6 +318,67 @@ pub fn check_one(rep: &Report, cfg: &Cfg, b: &Built, pats: &[Vec<u8>], data: &[u
     }
 }
 
+/// one pattern of n bytes over {a,b} plus "xyz"; stream = zz P zzz P xyz z (z occurs in no
+/// pattern), so the expected matches are known by construction (the naive oracle is quadratic)
+fn huge_pattern_case(rep: &Report, n: usize, do_find: bool, do_replace: bool, faults: bool) {
+    let p: Vec<u8> = (0..n).map(|i| b"ab"[((i * i / 7) ^ (i >> 5)) % 2]).collect();
+    let pats = vec![p.clone(), b"xyz".to_vec()];
+    let mut data = b"zz".to_vec();
+    data.extend_from_slice(&p);
+    data.extend_from_slice(b"zzz");
+    data.extend_from_slice(&p);
+    data.extend_from_slice(b"xyzz");
+    let want = vec![M { pid: 0, start: 2, end: 2 + n }, M { pid: 0, start: 5 + n, end: 5 + 2 * n }, M { pid: 1, start: 5 + 2 * n, end: 8 + 2 * n }];
+    let repl: Vec<Vec<u8>> = vec![b"<P>".to_vec(), b"<x>".to_vec()];
+    let want_out = b"zz<P>zzz<P><x>z".to_vec();
+    // (no DFA: building one for a million-state chain takes minutes)
+    for (ei, engine) in [Engine::TopNonContig, Engine::TopContig, Engine::LowNonContig].into_iter().enumerate() {
+        let cfg = Cfg { engine, sk: StartKindC::U, mk: Kind::Std, ci: false, pre: ei != 1, dd: None, bc: true };
+        let b = match build(&cfg, &pats) {
+            Ok(b) => b,
+            Err(_) => continue,
+        };
+        aho_corasick::verif::set_buffer_spare_capacity(None);
+        // (whole-buffer reads only: with a retained tail of n bytes every small read costs a roll of n bytes)
+        for si in [4usize] {
+            if faults {
+                // one transient read fault in the middle; the caller keeps iterating: every match
+                // is still reported and the iterator ends only after the reader reported the end
+                let eof = std::sync::atomic::AtomicBool::new(false);
+                let got = catch_unwind(AssertUnwindSafe(|| stream_find_resume(&b, SchedReader { data: &data, pos: 0, sched: SCHEDS[si], i: 0, fail_at: Some(n + 3), eof: Some(&eof) })));
+                rep.case(true);
+                let ok = match &got {
+                    Ok(Ok((v, ended))) => {
+                        let oks: Vec<&M> = v.iter().filter_map(|x| x.as_ref().ok()).collect();
+                        oks.len() <= want.len() && oks.iter().zip(&want).all(|(a, b)| *a == b) && (!*ended || eof.load(std::sync::atomic::Ordering::Relaxed))
+                    }
+                    _ => false,
+                };
+                if !ok {
+                    rep.fail(Fail { key: format!("stream:huge:fault:{}", n), what: format!("stream find_iter with a {}-byte pattern [{}] and one transient read fault: got (items, ended) {:?}, reader reported end of stream: {} (the matches must be a prefix of {:?} and the iterator may end only after the reader reported the end)", n, cfg.encode(), got.map(|r| r.map(|(v, e)| (v.len(), e))), eof.load(std::sync::atomic::Ordering::Relaxed), want), argv: vec!["stream".into()] });
+                }
+                continue;
+            }
+            if do_find {
+                let got = catch_unwind(AssertUnwindSafe(|| stream_find(&b, SchedReader { data: &data, pos: 0, sched: SCHEDS[si], i: 0, fail_at: None, eof: None })));
+                rep.case(true);
+                let ok = matches!(&got, Ok(Ok(v)) if v.len() == want.len() && v.iter().zip(&want).all(|(a, b)| a.as_ref().ok() == Some(b)));
+                if !ok {
+                    rep.fail(Fail { key: format!("stream:huge:find:{}", n), what: format!("stream find_iter with a {}-byte pattern [{}], stream of {} bytes, read schedule {:?}: expected {:?}, got {:?}", n, cfg.encode(), data.len(), SCHEDS[si], want, got.map(|r| r.map(|v| v.len()))), argv: vec!["stream".into()] });
+                }
+            }
+            if do_replace {
+                let mut w = FaultWriter { out: vec![], fail_after: None };
+                let r = catch_unwind(AssertUnwindSafe(|| stream_replace(&b, SchedReader { data: &data, pos: 0, sched: SCHEDS[si], i: 0, fail_at: None, eof: None }, &mut w, &repl)));
+                rep.case(true);
+                if !matches!(&r, Ok(Ok(()))) || w.out != want_out {
+                    rep.fail(Fail { key: format!("stream:huge:replace:{}", n), what: format!("stream replacement with a {}-byte pattern [{}]: {} bytes written, expected '{}'", n, cfg.encode(), w.out.len(), show(&want_out)), argv: vec!["stream".into()] });
+                }
+            }
+        }
+    }
+}
+
 fn long_pattern_case(rep: &Report, longpat: &[u8]) {
     let pats = vec![longpat.to_vec(), b"abba".to_vec()];
     let mut data: Vec<u8> = vec![b'b'; 70_000];
@@ -325,8 +386,8 @@ fn long_pattern_case(rep: &Report, longpat: &[u8]) {
     data.extend(vec![b'a'; 70_000]);
     data.extend_from_slice(b"babbab");
     data.extend_from_slice(longpat);
-    for engine in [Engine::TopAuto, Engine::LowContig, Engine::LowDfa, Engine::LowNonContig] {
-        let cfg = Cfg { engine, sk: StartKindC::U, mk: Kind::Std, ci: false, pre: true, dd: None, bc: true };
+    for (ei, engine) in [Engine::TopAuto, Engine::LowContig, Engine::LowDfa, Engine::LowNonContig].into_iter().enumerate() {
+        let cfg = Cfg { engine, sk: StartKindC::U, mk: Kind::Std, ci: false, pre: ei % 2 == 1, dd: None, bc: true };
         if let Ok(b) = build(&cfg, &pats) {
             aho_corasick::verif::set_buffer_spare_capacity(None);
             for si in [0usize, 4, 6] {
@@ -419,6 +480,11 @@ pub fn run(args: &Args) -> Report {
     // a pattern longer than 8 KiB: the retained tail (min) times 8 exceeds the default capacity
     let longpat: Vec<u8> = (0..9000usize).map(|i| b"ab"[(i * i / 7) % 2]).collect();
     long_pattern_case(&rep, &longpat);
+    // pattern lengths at which a capacity formula may have no spare byte: exact powers of two at
+    // and above the default capacity, and 1 MiB
+    for n in [65_536usize, 131_072, 1 << 20] {
+        huge_pattern_case(&rep, n, do_find || faults, do_replace, faults);
+    }
     if !faults {
         large_stream_case(&rep, do_find, do_replace);
     }
@@ -428,10 +494,13 @@ pub fn run(args: &Args) -> Report {
         let l = 8 + rng.below(33);
         datas.push(rng.bytes(b"ab", l));
     }
-    let cfgs: Vec<Cfg> = [(Engine::LowNonContig, StartKindC::B), (Engine::LowContig, StartKindC::B), (Engine::LowDfa, StartKindC::U), (Engine::TopAuto, StartKindC::U), (Engine::TopContig, StartKindC::B)]
+    let mut cfgs: Vec<Cfg> = [(Engine::LowNonContig, StartKindC::B), (Engine::LowContig, StartKindC::B), (Engine::LowDfa, StartKindC::U), (Engine::TopAuto, StartKindC::U), (Engine::TopContig, StartKindC::B)]
         .iter()
         .map(|&(engine, sk)| Cfg { engine, sk, mk: Kind::Std, ci: false, pre: true, dd: None, bc: true })
         .collect();
+    // builder options that have no business with stream searching must not change it
+    cfgs.push(Cfg { engine: Engine::TopAuto, sk: StartKindC::U, mk: Kind::Std, ci: false, pre: false, dd: Some(0), bc: false });
+    cfgs.push(Cfg { engine: Engine::LowNonContig, sk: StartKindC::B, mk: Kind::Std, ci: true, pre: false, dd: Some(2), bc: true });
     par_for(&lists, |pats| {
         for (ci, cfg) in cfgs.iter().enumerate() {
             if !thorough && faults && ci % 2 == 1 {
